@@ -15,6 +15,11 @@ tree into a scratch directory and applies ONLY these edits, each a must-fire rul
                         vf_sprintf_<mangled format>(dst, args...) / vf_sscanf_<mangled>(src, args...).
   R5 struct memcpy    : memcpy(d, s, sizeof(cJSON)) becomes vf_memcpy_cjson(d, s, sizeof(cJSON)) (exact 64-byte copy model);
                         memset(p, 0, sizeof(cJSON)) becomes vf_memset_cjson (typed zero assignment, so that symex sees NULL links).
+  R6 shared record    : `static error global_error` (the only file-scope object that library calls write after start-up) becomes
+                        `static volatile error global_error`; the driver then runs goto-instrument --nondet-volatile, so every read of
+                        it inside a function body returns an arbitrary value - the interference model for C20 (another thread may
+                        store to the error record at any moment).  Contract clauses are not affected (they are not instructions when
+                        the pass runs); a read that is the operand of a `return` is not affected either (cJSON_GetErrorPtr).
 Nothing is dropped.
 """
 import os, re, sys, shutil
@@ -275,6 +280,16 @@ def rewrite_struct_memcpy(src, fname, report):
         src = src[:s_] + new + src[e_:]
     return src
 
+def volatile_shared(src, fname, report):
+    """R6: the shared error record becomes volatile (interference model, see module docstring)"""
+    if fname != "cJSON.c":
+        return src
+    new, n = re.subn(r"(?m)^static\s+error\s+global_error\b", "static volatile error global_error", src)
+    if n != 1:
+        raise AnnotateError("%s: R6 expected exactly one definition `static error global_error`, found %d" % (fname, n))
+    report.append("R6 %s: static error global_error -> static volatile error global_error" % fname)
+    return new
+
 def rewrite_variadic(src, fname, report):
     toks = lex(src)
     edits = []
@@ -396,6 +411,7 @@ def annotate(repo, scratch, loops_tbl, apply_loops=True):
             src = hoist_statics(src, f, report)
             src = rewrite_variadic(src, f, report)
             src = rewrite_struct_memcpy(src, f, report)
+            src = volatile_shared(src, f, report)
         open(os.path.join(scratch, f), "w").write(src)
     return report
 
